@@ -10,6 +10,20 @@ import (
 )
 
 // if dims = 2 and axis -1 it returns the last dimension. In this case 1
+// softMaxLayout refuses operands the kernels below cannot read: they walk the backing arrays
+// as contiguous row-major storage.
+func softMaxLayout(ts ...Tensor) error {
+	for _, t := range ts {
+		if t == nil {
+			continue
+		}
+		if t.RequiresIterator() || t.DataOrder().IsColMajor() {
+			return errors.Errorf("SoftMax does not support views, lazily transposed, masked or column-major tensors. Materialize() them in row-major form first")
+		}
+	}
+	return nil
+}
+
 func resolveAxis(axis int, dims int) int {
 	res := axis % dims
 	if (res < 0 && dims > 0) || (res > 0 && dims < 0) {
@@ -36,6 +50,10 @@ func (e StdEng) SoftMax(x Tensor, axis int, opts ...FuncOpt) (retVal Tensor, err
 	if safe || !toReuse && reuse == nil && safe {
 		// create reuse
 		reuse = New(WithShape(expectedShape...), Of(x.Dtype()))
+	}
+
+	if err = softMaxLayout(x, reuse); err != nil {
+		return nil, err
 	}
 
 	switch x.Dtype() {
@@ -82,6 +100,10 @@ func (e StdEng) SoftMaxB(output, grad Tensor, axis int, opts ...FuncOpt) (retVal
 		reuse = New(WithShape(expectedShape...), Of(output.Dtype()))
 	}
 
+	if err = softMaxLayout(output, grad, reuse); err != nil {
+		return nil, err
+	}
+
 	switch output.Dtype() {
 	case Float32:
 		if expectedShape.Dims()-1 == axis {
@@ -118,6 +140,10 @@ func (e StdEng) LogSoftMax(x Tensor, axis int, opts ...FuncOpt) (retVal Tensor, 
 	if safe || !toReuse && reuse == nil && safe {
 		// create reuse
 		reuse = New(WithShape(expectedShape...), Of(x.Dtype()))
+	}
+
+	if err = softMaxLayout(x, reuse); err != nil {
+		return nil, err
 	}
 
 	switch x.Dtype() {
@@ -163,6 +189,10 @@ func (e StdEng) LogSoftMaxB(output, grad Tensor, axis int, opts ...FuncOpt) (ret
 	if safe || !toReuse && reuse == nil && safe {
 		// create reuse
 		reuse = New(WithShape(expectedShape...), Of(output.Dtype()))
+	}
+
+	if err = softMaxLayout(output, grad, reuse); err != nil {
+		return nil, err
 	}
 
 	switch output.Dtype() {
